@@ -21,8 +21,8 @@ DimensionIndexValues:
 * `framesStack`      what the read side then sees (positions and ReferencedSegmentNumber per frame, in frame order).
 
 The regenerated pieces (`Gen.frameSkipped`, `Gen.framePlaneIndexValue`, `Gen.frameEnumStart`, `Gen.omitEffective`,
-TC03loop) are tied to the hand-written loop by the bridge theorems of `Proofs/SegFrames.lean`. -/
-namespace HdVerif.SegFrames
+TC03loop) are tied to the hand-written loop by the bridge theorems of `Proofs/SegFrameLoop.lean`. -/
+namespace HdVerif.SegFrameLoop
 open HdVerif HdVerif.Gen HdVerif.SegGeom HdVerif.SegGeom.V3
 
 /-- insertion of `(d, i)` into a list strictly ascending in `d`; an entry with the same `d` is REPLACED — the caller
@@ -186,4 +186,4 @@ def tileFrames (origin rowCos colCos : V3) (psRow psCol : Rat) (R C tr tc : Nat)
   let kept := keptTiles (tilesOf origin rowCos colCos psRow psCol R C tr tc) nonempty om
   segs.flatMap (fun s => tileFramesOf s (omitEff nonempty om) present (kept.map (fun p => p.1)) kept)
 
-end HdVerif.SegFrames
+end HdVerif.SegFrameLoop
